@@ -2,6 +2,8 @@
 //! nodes to the reference model's nodes, and a self-contained JSON form of a list for replay files.
 
 use boxworks::ds;
+#[allow(unused_imports)]
+use boxworks::FontRepo as _;
 use common::{Glue, GlueOrder, Scaled};
 use reftex::kp;
 use serde_json::{json, Value};
@@ -13,36 +15,69 @@ use serde_json::{json, Value};
 pub struct Font {
     pub unit: i32,
 }
-pub fn metrics_units(c: char, font: u32) -> Option<(i32, i32, i32)> {
-    Some(match (font, c) {
-        (0, 'a') => (5, 7, 1),
-        (0, 'b') => (3, 4, 2),
-        (0, 'c') => (2, 3, 0),
-        (0, '-') => (1, 2, 0),
-        (0, 'f') => (6, 8, 0),
-        (1, 'a') => (7, 9, 3),
-        (1, 'b') => (2, 5, 0),
-        (1, 'f') => (8, 3, 4),
-        (2, 'b') => (4, 2, 5),
+/// Width, and height / depth where the font gives them, in units. Font 0 has three glyphs for which a
+/// `FontRepo` gives a width but no height (`h`), no depth (`d`) or neither (`w`).
+pub fn metrics_opt(c: char, font: u32) -> Option<(i32, Option<i32>, Option<i32>)> {
+    let full = |w, h, d| Some((w, Some(h), Some(d)));
+    match (font, c) {
+        (0, 'a') => full(5, 7, 1),
+        (0, 'b') => full(3, 4, 2),
+        (0, 'c') => full(2, 3, 0),
+        (0, '-') => full(1, 2, 0),
+        (0, 'f') => full(6, 8, 0),
+        (1, 'a') => full(7, 9, 3),
+        (1, 'b') => full(2, 5, 0),
+        (1, 'f') => full(8, 3, 4),
+        (2, 'b') => full(4, 2, 5),
         // a glyph of width 0 that is taller and deeper than anything else in the menus
-        (0, '|') => (0, 16, 15),
+        (0, '|') => full(0, 16, 15),
         // non-ASCII glyphs: 2-, 3- and 4-byte characters
-        (0, 'é') => (4, 6, 0),
-        (1, 'é') => (5, 5, 1),
-        (0, '€') => (6, 7, 1),
-        (1, '😀') => (9, 8, 2),
-        _ => return None,
-    })
+        (0, 'é') => full(4, 6, 0),
+        (1, 'é') => full(5, 5, 1),
+        (0, '€') => full(6, 7, 1),
+        (1, '😀') => full(9, 8, 2),
+        // width, but no height / no depth / neither
+        (0, 'h') => Some((4, None, Some(11))),
+        (0, 'd') => Some((4, Some(12), None)),
+        (0, 'w') => Some((6, None, None)),
+        _ => None,
+    }
 }
+/// What TeX's box arithmetic sees: a missing height or depth is zero (the crate's documented default
+/// in `FontRepo::width_height_depth`); a glyph without a width does not exist.
+pub fn metrics_units(c: char, font: u32) -> Option<(i32, i32, i32)> {
+    metrics_opt(c, font).map(|(w, h, d)| (w, h.unwrap_or(0), d.unwrap_or(0)))
+}
+/// Route (a): implements only `width`, `height`, `depth`; `width_height_depth` is the trait's
+/// default method, and `height` / `depth` really return `None` where the font has none.
 impl boxworks::FontRepo for Font {
     fn width(&self, c: char, f: u32) -> Option<Scaled> {
-        metrics_units(c, f).map(|m| Scaled(m.0 * self.unit))
+        metrics_opt(c, f).map(|m| Scaled(m.0 * self.unit))
     }
     fn height(&self, c: char, f: u32) -> Option<Scaled> {
-        metrics_units(c, f).map(|m| Scaled(m.1 * self.unit))
+        metrics_opt(c, f).and_then(|m| m.1).map(|h| Scaled(h * self.unit))
     }
     fn depth(&self, c: char, f: u32) -> Option<Scaled> {
-        metrics_units(c, f).map(|m| Scaled(m.2 * self.unit))
+        metrics_opt(c, f).and_then(|m| m.2).map(|d| Scaled(d * self.unit))
+    }
+}
+/// Route (b): the same fonts through a repo that overrides `width_height_depth`.
+#[derive(Clone, Copy)]
+pub struct FontWhd {
+    pub unit: i32,
+}
+impl boxworks::FontRepo for FontWhd {
+    fn width(&self, c: char, f: u32) -> Option<Scaled> {
+        Font { unit: self.unit }.width(c, f)
+    }
+    fn height(&self, c: char, f: u32) -> Option<Scaled> {
+        Font { unit: self.unit }.height(c, f)
+    }
+    fn depth(&self, c: char, f: u32) -> Option<Scaled> {
+        Font { unit: self.unit }.depth(c, f)
+    }
+    fn width_height_depth(&self, c: char, f: u32) -> Option<[Scaled; 3]> {
+        metrics_units(c, f).map(|m| [Scaled(m.0 * self.unit), Scaled(m.1 * self.unit), Scaled(m.2 * self.unit)])
     }
 }
 
